@@ -130,7 +130,7 @@ func (p *packageParse) completePack(msg *Message) (*Message, bool) {
 			p.add(id, header)
 		}
 
-		if seq > len(p.subcontractingRecord[id]) {
+		if seq < 1 || seq > len(p.subcontractingRecord[id]) {
 			slog.Warn("abnormal packet length",
 				slog.Int("seq", seq),
 				slog.Int("record sum", len(p.subcontractingRecord[id])),
